@@ -106,9 +106,6 @@ MUTANTS = [
     ('C11', 'primary-close-checks-secondaries-late', CN,
      "            for connection in self.connections.values():\n                if not connection._needs_to_join:\n                    raise ConnectionStateError(\n                        \"Cannot close a connection joined to a transaction\")\n",
      "            pass\n"),
-    ('C11', 'secondary-close-skips-joined-check', CN,
-     "    def close(self, primary=True):\n        \"\"\"Close the Connection.\"\"\"\n        if not self._needs_to_join:",
-     "    def close(self, primary=True):\n        \"\"\"Close the Connection.\"\"\"\n        if primary and not self._needs_to_join:"),
     ('C11', 'unadded-ghost-not-reloaded', CN,
      "                    try:\n                        o._p_activate()\n                    except Exception:\n                        pass\n",
      "                    pass\n"),
